@@ -14,7 +14,12 @@
 //	D  states seeded (through the documented marshal layout) with offset counters just
 //	   below 2^64 (2b) / 2^32 (2s) so that the counter carry/borrow of each
 //	   implementation is exercised,
-//	E  the constructor argument rules.
+//	E  the constructor argument rules,
+//	L  long inputs 2^k + {-1,0,1,B-1,B,B+1} up to 4 MiB with chunkings crossing those points.
+//
+// Hardening pass: caller-owned key/message/result buffers are overwritten after each call
+// (A, C), every message is also hashed from non-initial states (mid-stream Sum at every
+// cut, Reset of a used object) in B, and D seeds counters 100 blocks below the carry.
 package main
 
 import (
@@ -191,7 +196,10 @@ func run(c *vf.Ctx) {
 		"(A) all digest sizes x all key lengths x msg len {0,1,B-1,B,B+1,2B,2B+1}; " +
 		"(B) configs (size in {1,20,32,48,64}/{16,32} x key len {0,1,max}) x every msg len 0..4B+1 and 2000 x chunkings {one Write, byte-wise, strides 7/B-1/B/B+1, boundary two-way splits; for max size x key {0,max}: every two-way split and boundary three-way splits} x value classes, plus one-shot SumNNN; " +
 		"(C) every history over {Write 0,1,B-1,B,B+1,2B+3; Sum; Reset} to depth D without state merging; " +
-		"(D) marshal-seeded states with counters within 3 blocks of the 2^64/2^32 carry x write lengths; (E) constructor argument rules. " +
+		"(D) marshal-seeded states with counters 1,2,3 or 100 blocks below the 2^64/2^32 carry (and the sign / 16-bit boundaries) x write lengths up to 300 blocks, so the carry also happens deep inside one long hashBlocks call; (E) constructor argument rules; " +
+		"(L) long inputs: every length 2^k+{-1,0,1,B-1,B,B+1}, k=10..22, x {unkeyed, max key} x chunkings {one Write, 1/B-1/B+1 bytes then the rest, two parts meeting at 2^(k-1)+1, strides 4095 and 65537} on a reused (Reset) object, plus one-shot SumNNN. " +
+		"Caller-owned buffers: in (A) a second object is built from private key/message copies that are overwritten right after New/Write return (digest and digest after Reset must be those of the original key; Write must not modify its argument), in (C) every Write gets a private copy that is overwritten afterwards, keys are overwritten after New, and every Sum result incl. spare capacity is overwritten. " +
+		"Non-initial states: in (B) every message is also hashed with a (double) Sum in the middle at every cut (boundary cuts for the smaller configs) and on an object that absorbed L other bytes and was Reset. " +
 		"non-trivial = distinct (alg,path,size,keylen,msglen[,section]) that is keyed, or not the maximal size, or spans more than one block; a history is non-trivial from depth 2. oracle = RFC 7693 model (ref/blake2ref)")
 	c.Assume("the reference model verif/ref/blake2ref is correct (validated against RFC 7693 App. A/E vectors, the official BLAKE2X KATs and CPython hashlib)")
 	c.Assume("message/key values are a fixed alphabet plus seeded classes: every shape is enumerated, not every value")
